@@ -89,6 +89,48 @@ def ident_to_str(ident: str, allow_num: bool=False) -> str:
     ])
 
 
+# Binary operators that bind weaker than the prefix NOT
+# (see edb/edgeql/parser/grammar/precedence.py).
+_WEAKER_THAN_NOT = frozenset({'OR', 'AND', 'UNION', 'EXCEPT', 'INTERSECT'})
+
+
+def _prefix_swallows_op(node: qlast.Base, op: str) -> bool:
+    """Check if *node*, printed right before *op*, would swallow it.
+
+    Prefix operators are printed without enclosing parentheses, so
+    as the left operand of a binary operator that binds tighter, e.g.
+    `(-1) ^ 2` or `(NOT a) = b`, they have to be parenthesized.
+    """
+    while True:
+        if isinstance(node, qlast.UnaryOp):
+            unary_op = str(node.op).upper()
+            if unary_op == 'NOT':
+                return op not in _WEAKER_THAN_NOT
+            elif op == '^':
+                # Unary +, -, EXISTS and DISTINCT only bind weaker than ^.
+                return True
+            elif unary_op.isalnum():
+                # The operand is printed in parentheses.
+                return False
+            node = node.operand
+        elif isinstance(node, qlast.TypeOf):
+            if op == '^':
+                return True
+            node = node.expr
+        elif isinstance(node, (qlast.TypeCast, qlast.DetachedExpr)):
+            node = node.expr
+        elif isinstance(node, qlast.Introspect):
+            node = node.type
+        elif isinstance(node, qlast.Constant):
+            return (
+                op == '^'
+                and node.kind is not qlast.ConstantKind.STRING
+                and node.value.startswith('-')
+            )
+        else:
+            return False
+
+
 class EdgeQLSourceGeneratorError(errors.InternalServerError):
     pass
 
@@ -480,17 +522,27 @@ class EdgeQLSourceGenerator(codegen.SourceGenerator):
         if op.isalnum():
             self.write(')')
 
+    def _visit_left_operand(self, node: qlast.Expr, op: str) -> None:
+        parenthesize = _prefix_swallows_op(node, op)
+        if parenthesize:
+            self.write('(')
+        self.visit(node)
+        if parenthesize:
+            self.write(')')
+
     def visit_BinOp(self, node: qlast.BinOp) -> None:
+        op = str(node.op).upper()
         self.write('(')
-        self.visit(node.left)
-        self.write(' ' + str(node.op).upper() + ' ')
+        self._visit_left_operand(node.left, op)
+        self.write(' ' + op + ' ')
         self.visit(node.right)
         self.write(')')
 
     def visit_IsOp(self, node: qlast.IsOp) -> None:
+        op = str(node.op).upper()
         self.write('(')
-        self.visit(node.left)
-        self.write(' ' + str(node.op).upper() + ' ')
+        self._visit_left_operand(node.left, op)
+        self.write(' ' + op + ' ')
         self.visit(node.right)
         self.write(')')
 
